@@ -16,6 +16,7 @@ Definition good_event (e : @event DR) : Prop :=
   | Dev d => dbfs_good d
   | Echo d => dbfs_good d
   | Exc x => x = ProtocolError
+  | Adopt _                       (* a level taken over from the receiver: judged when it is read *)
   | Key | Push _ _ | Swallowed _ => True
   end.
 
@@ -168,10 +169,42 @@ Proof.
     intros H. apply in_app_or in H. tauto.
 Qed.
 
+(* stream start: either the receiver's level is taken over (nothing was set before), or the
+   current level is sent again - and that level is a valid one *)
+Lemma rstream_resend s v :
+  raop_volume DR (ctx DR s) = Ok v ->
+  (ctx DR s <> None \/ True) ->
+  forall i, (ctx DR s = None -> i = None) ->
+  rstream DR s i = raop_set DR s v.
+Proof.
+  intros Ev _ i Hi. pose proof (raop_volume_ok _ _ Ev) as Gv.
+  destruct (raop_set_valid s v Gv) as (d & w & _ & _ & _ & _ & E).
+  unfold rstream. destruct (ctx DR s) as [c|] eqn:C.
+  - rewrite Ev, E. reflexivity.
+  - rewrite (Hi eq_refl), Ev, E. reflexivity.
+Qed.
+
+Lemma rstream_cases s i :
+  (exists d, ctx DR s = None /\ i = Some d /\
+             rstream DR s i = (Build_rstate DR (Some d) (pend DR s) (fvol DR s), [@Adopt DR d])) \/
+  (exists e, raop_volume DR (ctx DR s) = Raise e /\ rstream DR s i = (s, [@Exc DR e])) \/
+  (exists v, raop_volume DR (ctx DR s) = Ok v /\ rstream DR s i = raop_set DR s v).
+Proof.
+  destruct (ctx DR s) as [c|] eqn:C.
+  - destruct (raop_volume DR (Some c)) as [v|e] eqn:Ev.
+    + right. right. exists v. split; [reflexivity|].
+      apply rstream_resend; [now rewrite C | now left; rewrite C | intros H; now rewrite C in H].
+    + right. left. exists e. split; [reflexivity|]. unfold rstream. rewrite C, Ev. reflexivity.
+  - destruct i as [d|].
+    + left. exists d. repeat split. unfold rstream. rewrite C. reflexivity.
+    + right. right. exists 33. split; [reflexivity|].
+      apply rstream_resend; [now rewrite C | now right | reflexivity].
+Qed.
+
 (* any state, any operation, any real arguments *)
 Lemma rstep_events s o : Forall good_event (snd (rstep DR s o)).
 Proof.
-  destruct o as [level| | | |v| |d]; cbn [rstep].
+  destruct o as [level| | | |v| |d|i]; cbn [rstep].
   - destruct (in_range DR level) eqn:G.
     + apply in_range_R in G. now apply raop_set_events.
     + constructor; [reflexivity | constructor].
@@ -189,6 +222,10 @@ Proof.
   - constructor.
   - apply deliver_all_events.
   - constructor.
+  - destruct (rstream_cases s i) as [(d & _ & _ & E)|[(e & Ev & E)|(v & Ev & E)]]; rewrite E.
+    + constructor; [exact I | constructor].
+    + apply raop_volume_raise in Ev. constructor; [apply Ev | constructor].
+    + apply raop_set_events. now apply raop_volume_ok in Ev.
 Qed.
 
 Lemma rrun_events ops : forall s, Forall (Forall good_event) (rrun DR s ops).
@@ -203,7 +240,8 @@ Qed.
 Definition only_bad_set (o : @rop DR) (ev : list (@event DR)) : Prop :=
   forall e, In (Exc e) ev -> exists level, o = @RSet DR level /\ ~ pct_ok level /\ ev = [@Exc DR ProtocolError].
 
-Definition inject_ok (o : @rop DR) : Prop := match o with RInject d => d <= 0 | _ => True end.
+Definition inject_ok (o : @rop DR) : Prop :=
+  match o with RInject d => d <= 0 | RStream (Some d) => d <= 0 | _ => True end.
 
 Lemma rstep_no_spurious s o :
   ctx_le0 s -> inject_ok o ->
@@ -221,7 +259,7 @@ Proof.
     rewrite E. cbn [fst snd]. split.
     - intros e [H|[H|[]]]; discriminate.
     - unfold ctx_le0. cbn. now apply dbfs_good_le0. }
-  destruct o as [level| | | |w| |d]; cbn [rstep].
+  destruct o as [level| | | |w| |d|i]; cbn [rstep].
   - destruct (in_range DR level) eqn:G.
     + apply in_range_R in G. now apply SetOK.
     + apply in_range_R_false in G. cbn [fst snd]. split; [|exact Hs].
@@ -235,6 +273,10 @@ Proof.
     + intros e He. exfalso. exact (deliver_all_no_exc _ _ _ He).
     + apply deliver_all_ctx. exact Hs.
   - cbn [fst snd]. split; [intros e []|]. unfold ctx_le0. cbn. exact Ho.
+  - destruct (rstream_cases s i) as [(d & _ & Ei & E)|[(e & Ev' & E)|(v' & Ev' & E)]]; rewrite E.
+    + subst i. cbn [fst snd]. split; [intros e [H|[]]; discriminate|]. unfold ctx_le0. cbn. exact Ho.
+    + rewrite Ev in Ev'. discriminate.
+    + rewrite Ev in Ev'. injection Ev' as <-. now apply SetOK.
 Qed.
 
 Lemma rrun_no_spurious ops : forall s,
@@ -246,6 +288,50 @@ Proof.
   - inversion Ho as [|? ? Ho1 Ho2]; subst.
     destruct (rstep_no_spurious s o Hs Ho1) as [H1 H2].
     destruct (rstep DR s o) as [s' ev]. cbn [fst snd] in *. constructor; [exact H1 | now apply IH].
+Qed.
+
+(* RaopAudio.set_volume with a valid level: what is stored reads back within 2^-43 *)
+Lemma raop_set_bound s x :
+  pct_ok x ->
+  exists d y, raop_set DR s x = (Build_rstate DR (Some d) (pend DR s ++ [y]) (fvol DR s), [@Fwd DR x; @Dev DR d]) /\
+              dbfs_good d /\ raop_volume DR (Some d) = Ok y /\ pct_ok y /\ Rabs (y - x) <= bpow radix2 (-43).
+Proof.
+  intros Hx. destruct (raop_set_valid s x Hx) as (d & y & Ed & Gd & Ey & Gy & E).
+  exists d, y. split; [exact E|]. split; [exact Gd|]. split; [exact Ey|]. split; [exact Gy|].
+  cbn [raop_volume] in Ey.
+  destruct (Req_EM_T x 0) as [Z|NZ].
+  - subst x. rewrite pct_to_dbfs_R in Ed. destruct (Req_EM_T 0 0); [|contradiction].
+    injection Ed as <-. rewrite dbfs_to_pct_R in Ey.
+    destruct (Rlt_dec (-144) (-30)); [|lra]. injection Ey as <-.
+    rewrite Rminus_0_r, Rabs_R0. apply bpow_ge_0.
+  - apply (roundtrip_bound x d y); try assumption. unfold pct_ok in Hx. lra.
+Qed.
+
+(* a level set by the user survives the start of a stream, whatever initial level the receiver
+   advertises: it is sent to the receiver again and reads back within 2^-42 *)
+Lemma set_stream_read x i :
+  pct_ok x ->
+  exists d y d' y',
+    rrun DR (rinit DR) [@RSet DR x; @RStream DR i; @RRead DR] =
+      [[@Fwd DR x; @Dev DR d]; [@Fwd DR y; @Dev DR d']; [@Ret DR y']] /\
+    dbfs_good d /\ dbfs_good d' /\ Rabs (y - x) <= bpow radix2 (-43) /\
+    pct_ok y' /\ Rabs (y' - x) <= bpow radix2 (-42).
+Proof.
+  intros Hx. pose proof Hx as Hx'. apply in_range_R in Hx'.
+  destruct (raop_set_bound (rinit DR) x Hx) as (d & y & E1 & Gd & Ey & Gy & B1).
+  set (s1 := Build_rstate DR (Some d) (pend DR (rinit DR) ++ [y]) (fvol DR (rinit DR))) in *.
+  destruct (raop_set_bound s1 y Gy) as (d' & y' & E2 & Gd' & Ey' & Gy' & B2).
+  exists d, y, d', y'. cbn [rrun rstep]. rewrite Hx', E1.
+  assert (ES : rstream DR s1 i = raop_set DR s1 y).
+  { apply rstream_resend; [exact Ey | now left | intros H; discriminate H]. }
+  rewrite ES, E2. cbn [ctx]. rewrite Ey'.
+  pose proof Gy' as G2. apply in_range_R in G2. rewrite G2.
+  split; [reflexivity|]. split; [exact Gd|]. split; [exact Gd'|]. split; [exact B1|]. split; [exact Gy'|].
+  replace (y' - x) with ((y' - y) + (y - x)) by ring.
+  eapply Rle_trans; [apply Rabs_triang|].
+  replace (bpow radix2 (-42)) with (bpow radix2 (-43) + bpow radix2 (-43)).
+  - lra.
+  - change (-42)%Z with (-43 + 1)%Z. rewrite bpow_plus, bpow_1. change (IZR radix2) with 2. lra.
 Qed.
 
 (* set a level, read it back *)
@@ -271,12 +357,13 @@ Qed.
 (* ------------------------------------------------------------------ MRP machine *)
 
 Definition mreport_ok (o : @mop DR) : Prop := match o with MReport v => pct_ok v | _ => True end.
+(* note: MOther v (a level change of ANOTHER output device) carries no condition at all *)
 
 Lemma mstep_events s o :
   pct_ok (mvol DR s) -> mreport_ok o ->
   Forall good_event (snd (mstep DR s o)) /\ pct_ok (mvol DR (fst (mstep DR s o))).
 Proof.
-  intros Hv Ho. destruct o as [level| | | |v]; cbn [mstep].
+  intros Hv Ho. destruct o as [level| | | |v|w]; cbn [mstep].
   - destruct (in_range DR level) eqn:G; cbn [fst snd]; (split; [|exact Hv]).
     + constructor; [|constructor]. now apply in_range_R in G.
     + constructor; [reflexivity | constructor].
@@ -293,7 +380,12 @@ Proof.
   - pose proof Hv as Hv'. apply in_range_R in Hv'. rewrite Hv'. cbn [fst snd]. split; [|assumption].
     constructor; [exact Hv | constructor].
   - cbn [fst snd mvol]. split; [constructor | exact Ho].
+  - cbn [fst snd]. split; [constructor | exact Hv].
 Qed.
+
+(* a level change of another output device of the group changes nothing and shows nothing *)
+Lemma mother_noop s v : mstep DR s (@MOther DR v) = (s, []).
+Proof. reflexivity. Qed.
 
 Lemma mrun_events ops : forall s,
   pct_ok (mvol DR s) -> Forall mreport_ok ops -> Forall (Forall good_event) (mrun DR s ops).
